@@ -192,6 +192,12 @@ def obligations(tier):
     return list(obs) + STATIC
 
 
+def extra_evidence():
+    obs, skipped, total = generate.cache
+    return {"registration_table_entries": total, "harnessed": len([o for o in obs if not o.get("is_known_probe")]), "skipped_not_verified": skipped,
+            "skipped_reason": "float libm intrinsics CBMC does not model; string pattern searchers and unicode property tables time out (probed, 300 s); primitives that need a live Thread/GC array"}
+
+
 def v(unit, fn, clause, source):
     return dict(engine="verus", unit=unit, function=fn, name="C06/%s/%s" % (unit, fn.replace("::", "_")), clause=clause, source=source)
 
